@@ -20,7 +20,7 @@ From BS Require Import Abs.Promotion Abs.PromotionProofs.
 Local Open Scope N_scope.
 
 (* ONE client: whatever the interleaving, the hand-over terminates (a measure drops with every
-   event: at most 27 events), every run that cannot be continued has handed the session over —
+   event: at most 36 events), every run that cannot be continued has handed the session over —
    peer 1 is nothing but the host of [0], peer 0 nothing but its connected client, ServerState
    Disconnected, flags and edges clear, no traffic — and every run can be completed to such a state *)
 Theorem C07_single_client_promotion :
@@ -52,55 +52,70 @@ Theorem C07_promoted_host_keeps_hosting :
     pget hosting false s k = true -> pget hosting false s' k = true.
 Proof. exact PromotionProofs.promoted_host_keeps_hosting. Qed.
 
-(* Known finding S8 (open): with a second client the statement is false — machine-checked witness
-   (reproduced on the real code: corpus/proto/S8_*.scn, and the authors' own #[ignore]d test): two
-   peers host, the other client is stranded (ClientState Connected, RenetClient dead for good) and
-   no continuation whatsoever repairs it *)
+(* Known finding S8 (open; reproduced on the real code: corpus/proto/S8_*.scn, and the authors' own
+   #[ignore]d test): with a second client the statement is false. After the repair 7fb659b every
+   other peer DOES become a connected client of the new host, but (1) the old host keeps hosting for
+   ever next to the new one whenever its promotion flag is consumed (it connects to the new host)
+   before its last old client has timed out, and (2) the flag of every non-promoted client stays
+   set for ever. Machine-checked witness: the real run. *)
 Theorem C07_two_clients_refuted :
   exists tr s,
-    all_internal tr /\ run (promoted 2 1) tr = Some s /\ stable s /\ hosts s = [0; 1] /\
-    s8_outcome s /\ strandedP s 2 /\
-    (forall tr' s', run s tr' = Some s' ->
-       exists x, ps s' !! 2 = Some x /\ link_up x = false /\ cli_state x = CConnected /\ sticky x = true).
+    all_internal tr /\ run (promoted 2 1) tr = Some s /\
+    stable s /\ hosts s = [0; 1] /\ repaired_outcome s 1 /\
+    pget clients [] s 1 = [0; 2] /\ pget clients [] s 0 = [] /\
+    pget flag false s 2 = true /\
+    ~ session_ok s 1 /\ ~ session_ok_roles s 1.
 Proof. exact PromotionProofs.C07_refuted_two_clients. Qed.
 
 Theorem C07_statement_two_clients_false : ~ C07_statement 2 1.
 Proof. exact PromotionProofs.C07_statement_two_clients_false. Qed.
 
-(* ... every run with two clients terminates and EVERY stable end state is that outcome *)
+(* ... what DOES hold with two clients, for every run: it terminates, and every stable end state has
+   the new host hosting exactly all other peers, every other peer a connected client of it with a
+   live link — and the old host with an empty client table, its server closed or still open *)
 Theorem C07_two_clients_every_run :
   forall tr s, all_internal tr -> run (promoted 2 1) tr = Some s ->
     (length tr + measure s <= measure (promoted 2 1%N))%nat
-    /\ (stable s -> s8_outcome s /\ strandedP s 2 /\ ~ session_ok s 1)
-    /\ (exists tr' s', all_internal tr' /\ run s tr' = Some s' /\ stable s' /\ s8_outcome s').
-Proof. exact PromotionProofs.C07_two_clients_every_run. Qed.
+    /\ (stable s -> repaired_outcome s 1 /\ length (pget clients [] s 1) = 2%nat /\
+                    (hosts s = [1] \/ hosts s = [0; 1]) /\ ~ session_ok s 1)
+    /\ (exists tr' s', all_internal tr' /\ run s tr' = Some s' /\ stable s' /\ repaired_outcome s' 1).
+Proof. exact PromotionProofs.C07_two_clients_every_run_repaired. Qed.
 
-(* ... and for ANY number of clients the promotion never reaches its goal at any point of any run:
-   another client is an ordinary client of the old host until it obeys NewHost, stranded from then
-   on, and never enters the client table of the new host *)
+(* ... for ANY number of clients: another client is an ordinary client of the old host until it obeys
+   NewHost and a client of the new host (fresh RenetClient, flag set) from then on; the goal state
+   is reached at no point of any run *)
 Theorem C07_never_with_more_clients :
   forall n k c tr s,
     k ∈ client_ids n -> c ∈ client_ids n -> c <> k -> all_internal tr -> run (promoted n k) tr = Some s ->
-    (exists x, ps s !! c = Some x /\ (untouched s c x \/ (stranded x /\ client_of x = Some k /\ flag x = true))) /\
-    (forall d, d ∈ pget clients [] s k -> d = host) /\
+    (exists x, ps s !! c = Some x /\ (untouched s c x \/ moved s k c x)) /\
     ~ session_ok s k.
 Proof. exact PromotionProofs.C07_never_with_more_clients. Qed.
 
-(* Known finding S9 (open): repeated promotions. From every stable end F of the first hand-over the
-   promotion back terminates; it hands the session over iff the kick of the first hand-over did NOT
-   reach the new host's RenetClient (on a real network it does: corpus/proto/S9_*.scn) and ends in
-   the broken state otherwise *)
-Theorem C07_chain_of_promotions :
-  forall tr F, all_internal tr -> run (promoted 1 1) tr = Some F -> stable F ->
-    step F (EPromote 1 0) = Some (promote_in F 1 0) /\
-    forall tr' s, all_internal tr' -> run (promote_in F 1 0) tr' = Some s ->
-      (length tr' + measure s <= measure (promote_in F 1%N 0%N))%nat /\
-      (stable s -> if new_host_alive F then handed_over s 0 1 else chain_broken s 1 0) /\
-      (exists tr'' s', all_internal tr'' /\ run s tr'' = Some s' /\ stable s').
-Proof. exact PromotionProofs.C07_chain_of_promotions. Qed.
+(* ... and, any number of clients: once the hand-over is no longer pending and the old host has
+   consumed its flag while still hosting, it keeps hosting for ever *)
+Theorem C07_old_host_keeps_hosting :
+  forall n k tr s tr' s',
+    k ∈ client_ids n -> all_internal tr -> run (promoted n k) tr = Some s ->
+    ~ handover_pending k s -> pget hosting false s host = true -> pget flag true s host = false ->
+    all_internal tr' -> run s tr' = Some s' ->
+    pget hosting false s' host = true /\ pget flag true s' host = false /\ host ∈ hosts s'.
+Proof. exact PromotionProofs.old_host_keeps_hosting. Qed.
 
-Theorem C07_chain_refuted : ~ C07_chain_statement.
-Proof. exact PromotionProofs.C07_chain_refuted. Qed.
+(* Repeated promotions (finding S9, repaired by 7fb659b): in a two-peer session the promotion back
+   hands the session over again whether or not the kick of the first hand-over reached the new
+   host's RenetClient — and so does every further promotion of the chain *)
+Theorem C07_chain : C07_chain_statement.
+Proof. exact PromotionProofs.C07_chain. Qed.
+
+Theorem C07_chain_forever :
+  forall i F, chain_end i F ->
+    handed_over F (host_at i) (host_at (S i)) /\
+    step F (EPromote (host_at i) (host_at (S i))) = Some (promote_in F (host_at i) (host_at (S i))) /\
+    forall tr s, all_internal tr -> run (promote_in F (host_at i) (host_at (S i))) tr = Some s ->
+      (length tr + measure s <= measure (promote_in F (host_at i) (host_at (S i))))%nat /\
+      (stable s -> handed_over s (host_at (S i)) (host_at i) /\ chain_end (S i) s) /\
+      (exists tr' s', all_internal tr' /\ run s tr' = Some s' /\ stable s' /\ handed_over s' (host_at (S i)) (host_at i)).
+Proof. exact PromotionProofs.C07_chain_forever. Qed.
 
 Print Assumptions C07_single_client_promotion.
 Print Assumptions C07_single_client.
@@ -111,5 +126,6 @@ Print Assumptions C07_two_clients_refuted.
 Print Assumptions C07_statement_two_clients_false.
 Print Assumptions C07_two_clients_every_run.
 Print Assumptions C07_never_with_more_clients.
-Print Assumptions C07_chain_of_promotions.
-Print Assumptions C07_chain_refuted.
+Print Assumptions C07_old_host_keeps_hosting.
+Print Assumptions C07_chain.
+Print Assumptions C07_chain_forever.
